@@ -39,7 +39,7 @@ TECHNIQUE = ('deviation-bounded exhaustive enumeration of configurations (format
              'the small shapes, on the real dump/load code, with independent readers and writers '
              'as the model of each format')
 RULE = ('fill patterns: every table of shapes 1x1, 1x2, 2x1, 2x2, 2x3, 3x2 (thorough: + 3x3, 1x3, '
-        '3x1); per table and format every execution with <= 1 (quick) / <= 2 (thorough) deviations '
+        '3x1 with <= 1 deviation); per table and format every execution with <= 1 (quick) / <= 2 (thorough) deviations '
         'from the default; non-trivial = executions with at least one deviation on a table with a '
         'true and a false cell; distinct = distinct (table, format, deviation set)')
 ASSUMPTIONS = ['representable labels are as the statement defines them per format; combinations '
@@ -55,7 +55,8 @@ SHAPES = {'quick': [(1, 1), (1, 2), (2, 1), (2, 2), (2, 3), (3, 2)],
           'thorough': [(1, 1), (1, 2), (2, 1), (1, 3), (3, 1), (2, 2), (2, 3), (3, 2), (3, 3)]}
 
 TABLE_LABELS = ['X', '.', '0', '1', '42', 'a b', 'ä', '€', ',', ';', '!', '"', "'",
-                'x\ty', '-', '!!', '=', '*', '<>', 'B', '\\', 'x\\n', '{}', 'None', 'True']
+                'x\ty', '-', '!!', '=', '*', '<>', 'B', '\\', 'x\\n', '{}', 'None', 'True',
+                'lorem ipsum dolor sit amet ' * 4 + 'end']      # > 100 characters with blanks
 CXT_LABELS = TABLE_LABELS + ['|', '#', 'a|b', '#x', 'a#b', '||']
 CSV_LABELS = CXT_LABELS + ['\n', 'a\nb', '\r', 'a\r\nb', ' lead', 'trail ', ',"', '""', '"',
                            'a,b', "it's", '\t']
@@ -274,7 +275,7 @@ def run_tables(shard, tier):
     samples = []
     distinct = set()
     devs = deviations(fmt, n, m)
-    bound = 1 if tier == 'quick' else 2
+    bound = 1 if (tier == 'quick' or (n, m) not in SHAPES['quick']) else 2
     combos = [()] + [(d,) for d in devs]
     if bound >= 2:
         combos += list(itertools.combinations(devs, 2))
